@@ -50,6 +50,11 @@ pub unsafe extern "C" fn getrandom(buf: *mut u8, len: usize, flags: u32) -> isiz
     }
 }
 
+/// Installs a simulation entropy seed in the current thread (for helper threads of a run).
+pub fn install_thread_seed(seed: u64) {
+    SIM_ENTROPY.with(|s| s.set(Some(mix(seed, 0x5EED_4A54))));
+}
+
 pub fn entropy_draws() -> u64 {
     ENTROPY_DRAWS.with(|c| c.get())
 }
